@@ -5,12 +5,12 @@ package main
 func init() {
 	addMutants("C01", []Mutant{
 		{ID: "c01-answer-chain-result-dropped", File: "middleware/resolver/resolver.go", Expect: "C01-R16|resolve|answer section reduced to the question's owners",
-			Old: "\t\tresp.Answer = answerChain(resp.Answer, minReq.Question[0].Name)\n",
-			New: "\t\t_ = answerChain(resp.Answer, minReq.Question[0].Name)\n",
+			Old: "\t\tresp.Answer = answerChain(resp.Answer, minReq.Question[0].Name, minReq.Question[0].Qtype)\n",
+			New: "\t\t_ = answerChain(resp.Answer, minReq.Question[0].Name, minReq.Question[0].Qtype)\n",
 			Why: "F-C01-7: the owner filter runs but the reply keeps its answer section as it came; `www CNAME real` + `evil A 6.6.6.6` is validated, relayed with AD=1 and ends the cache's alias chase"},
 		{ID: "c01-answer-chain-keyed-on-zone-apex", File: "middleware/resolver/resolver.go", Expect: "C01-R16|resolve|answer section reduced to the question's owners",
-			Old: "\t\tresp.Answer = answerChain(resp.Answer, minReq.Question[0].Name)\n",
-			New: "\t\tresp.Answer = answerChain(resp.Answer, rs.servers.Zone)\n",
+			Old: "\t\tresp.Answer = answerChain(resp.Answer, minReq.Question[0].Name, minReq.Question[0].Qtype)\n",
+			New: "\t\tresp.Answer = answerChain(resp.Answer, rs.servers.Zone, minReq.Question[0].Qtype)\n",
 			Why: "F-C01-7: the chain is started at the asked zone's apex instead of the question's name: what is kept no longer depends on what was asked (for any question below the apex the whole answer is dropped, for the apex question every apex alias chain is kept)"},
 	})
 }
